@@ -5604,9 +5604,11 @@ def format_float8(value):
         elif value < 1000000.0:
             field = f"{value:8.1f}"
         else:
-            field = f"{value:8.1f}"
+            # use the rounded value to decide: 9999999.5 rounds to 8
+            # digits, which leaves no room for the decimal point
+            field = f"{round(value):8.1f}"
             if field.index(".") < 8:
-                field = f"{round(value):8.1f}"[0:8]
+                field = field[0:8]
             else:
                 field = _format_scientific8(value)
             return field
@@ -5774,9 +5776,10 @@ def format_float16(value):
         elif value < 100000000000000.0:
             field = f"{value:16.1f}"
         else:
-            field = f"{value:16.1f}"
+            # use the rounded value to decide (see format_float8)
+            field = f"{round(value):16.1f}"
             if field.index(".") < 16:
-                field = f"{round(value):16.1f}"[0:16]
+                field = field[0:16]
             else:
                 field = _format_scientific16(value)
             return field
@@ -5836,6 +5839,8 @@ def format_float16(value):
                 raise
             if ifield < 16:
                 field = f"{int(round(value, 0)):15d}."
+                if len(field) > 16:  # rounded up to one more digit
+                    field = _format_scientific16(value)
             else:
                 field = _format_scientific16(value)
             return field
